@@ -66,10 +66,42 @@ package unmarshal
 //@   ensures fresh(t.ts) && fresh(t.spl) && rectSpl(t.spl) && rectTs(t.ts) && len(t.spl.MTimestampNS) == 0 && len(t.ts.MDate) == 0
 //@   ensures t.spl.Size == 0 && t.ts.Size == 0
 
-// Not verified here (hashing / JSON text / shared cache): frame only.
-//@ func fingerprintLabels
+// The series fingerprint: three accumulators that are the order-independent
+// folds (wrapping sum, xor, odd-multiplier product) of the per-label hashes,
+// computed in real 64-bit arithmetic. (The final hash of the 24 accumulator
+// bytes goes through unsafe.Slice, which is not modelled: that the result is a
+// function of the three accumulators only is by reading.) The hash function
+// appends its result to the ghost log hseq[0..hcount) and extends the three
+// folds of the log by one step (definition of the folds, see specs/hash.spec).
+//@ func github.com/metrico/qryn/writer/utils/heputils/cityhash102.Hash128to64
 //@   flag function
-//@   modifies nothing
+//@   ghostset hseq = upd(hseq, hcount, result)
+//@   ghostset hcount = hcount + 1
+//@   modifies hseq, hcount
+//@   requires hcount >= 0
+//@   ensures result == h128(x[0], x[1])
+//@   ensures foldAdd(hseq, hcount) == foldAdd(old(hseq), old(hcount)) + result
+//@   ensures foldXor(hseq, hcount) == foldXor(old(hseq), old(hcount)) ^ result
+//@   ensures foldMix(hseq, hcount) == foldMix(old(hseq), old(hcount)) * (1779033703 + 2 * result)
+//@ func fingerprintLabels [C04]
+//@   flag arith=bv
+//@   flag checks=-index
+//@   ghostinit hcount = 0
+//@   ghostinit hseq = hseq
+//@   modifies hseq, hcount
+//@   check log-len: hcount == len(lbls)
+//@   check log-entries: forall i int :: 0 <= i && i < len(lbls) ==> hseq[i] == h128(ch64(lbls[i][0]), ch64(lbls[i][1]))
+//@   check fold-add: determs[0] == foldAdd(hseq, hcount)
+//@   check fold-xor: determs[1] == foldXor(hseq, hcount)
+//@   check fold-mix: determs[2] == foldMix(hseq, hcount)
+//@   loop 1:
+//@     invariant hcount == rangeindex + 1 && len(determs) == 3 && hcount <= len(lbls)
+//@     invariant forall i int :: 0 <= i && i < hcount ==> hseq[i] == h128(ch64(lbls[i][0]), ch64(lbls[i][1]))
+//@     invariant determs[0] == foldAdd(hseq, hcount)
+//@     invariant determs[1] == foldXor(hseq, hcount)
+//@     invariant determs[2] == foldMix(hseq, hcount)
+//@     modifies hseq, hcount, elems(determs)
+// Not verified here (JSON text / shared cache): frame only.
 //@ func encodeLabels
 //@   modifies nothing
 //@ func maybeAddFp
